@@ -10,7 +10,9 @@
    beyond max_size 60). *)
 From Coq Require Import ZArith List Bool Permutation Lia.
 From PTK Require Import Lib.Sx Lib.Py Model.Document Model.BufferEdit Proofs.BufferEditFacts
-  Model.C09_Kill Proofs.C09_Ring Proofs.C09_KillFacts Proofs.C09_YankFacts.
+  Proofs.C02_Base
+  Model.C09_Kill Model.C09_KillPatched Proofs.C09_Ring Proofs.C09_KillFacts Proofs.C09_YankFacts
+  Proofs.C09_CutFacts Proofs.C09_LinesFacts.
 Import ListNotations.
 Open Scope Z_scope.
 
@@ -234,6 +236,167 @@ Example C09_vi_visual_block_single_cell :
   ctext (snd (doc_cut_selection (cur_doc s) (0, BLOCK) true)) = [97].
 Proof. exact visual_block_single_cell_example. Qed.
 Print Assumptions C09_vi_visual_block_single_cell.
+
+(* ---- round 3: region, visual mode, registers, line-wise paste, repaired kill-word ---- *)
+
+(* Document.cut_selection for a CHARACTERS selection, emacs (vi = false: [min, max))
+   or Vi (vi = true: [min, max]): the new document is the text without the span,
+   the clipboard data is exactly the span *)
+Theorem C09_cut_selection_characters : forall t cur orig vi,
+  0 <= cur <= len t -> 0 <= orig <= len t ->
+  let a := sel_lo cur orig in
+  let b := sel_hi cur orig vi (len t) in
+  doc_cut_selection (mkdoc t cur) (orig, CHARACTERS) vi =
+  (Some (firstn (Z.to_nat a) t ++ skipn (Z.to_nat b) t, a),
+   mkclip (firstn (Z.to_nat (b - a)) (skipn (Z.to_nat a) t)) CHARACTERS).
+Proof. exact cut_chars. Qed.
+Print Assumptions C09_cut_selection_characters.
+
+(* kill-region (C-w / C-x r k with a mark) is an exact kill (so C09_yank_restores
+   applies to it) and clears the selection *)
+Theorem C09_region_cut_exact : forall s m,
+  Inv (sb s) -> svi s = false -> ssel s = Some (m, CHARACTERS) -> 0 <= m <= len (btext (sb s)) ->
+  killed (bcur (sb s) <=? m) s (region_cmd s true) (fun x => x)
+  /\ ssel (snd (region_cmd s true)) = None.
+Proof. exact region_cut_exact. Qed.
+Print Assumptions C09_region_cut_exact.
+
+(* copy-region (M-w) pushes the same text and leaves the buffer alone *)
+Theorem C09_region_copy_exact : forall s m,
+  Inv (sb s) -> svi s = false -> ssel s = Some (m, CHARACTERS) -> 0 <= m <= len (btext (sb s)) ->
+  exists s', region_cmd s false = (0, s') /\ sb s' = sb s /\ ssel s' = None /\
+    sring s' = ring_set (sring s)
+      (mkclip (firstn (Z.to_nat (sel_hi (bcur (sb s)) m false (len (btext (sb s))) - sel_lo (bcur (sb s)) m))
+                      (skipn (Z.to_nat (sel_lo (bcur (sb s)) m)) (btext (sb s)))) CHARACTERS).
+Proof. exact region_copy_exact. Qed.
+Print Assumptions C09_region_copy_exact.
+
+(* Vi visual mode (v): TextObject.cut, used by d / y / reg-d / reg-y, yields the
+   text without the characters min..max and exactly those characters *)
+Theorem C09_vi_visual_characters_cut : forall t cur orig,
+  0 <= cur <= len t -> 0 <= orig <= len t ->
+  let a := sel_lo cur orig in
+  let b := sel_hi cur orig true (len t) in
+  tobj_cut (mkdoc t cur) (orig - cur) 0 INCLUSIVE =
+  Some (Some (firstn (Z.to_nat a) t ++ skipn (Z.to_nat b) t, a),
+        mkclip (firstn (Z.to_nat (b - a)) (skipn (Z.to_nat a) t)) CHARACTERS).
+Proof. exact visual_chars_tobj_cut. Qed.
+Print Assumptions C09_vi_visual_characters_cut.
+
+(* d / y / x in visual mode: the unnamed register gets exactly the selected
+   characters (type CHARACTERS), registers untouched, y leaves the text alone,
+   d and x remove exactly the selection *)
+Theorem C09_vi_visual_unnamed : forall s orig key,
+  Inv (sb s) -> svi s = true -> 0 <= orig <= len (btext (sb s)) -> key = 0 \/ key = 1 \/ key = 2 ->
+  selected_chars s orig <> [] ->
+  exists s', vi_visual s (orig, CHARACTERS) key 0 = (0, s') /\
+    ring_get (sring s') = mkclip (selected_chars s orig) CHARACTERS /\
+    sregs s' = sregs s /\
+    btext (sb s') =
+      if key =? 1 then btext (sb s)
+      else firstn (Z.to_nat (sel_lo (bcur (sb s)) orig)) (btext (sb s))
+           ++ skipn (Z.to_nat (sel_hi (bcur (sb s)) orig true (len (btext (sb s))))) (btext (sb s)).
+Proof. exact visual_unnamed. Qed.
+Print Assumptions C09_vi_visual_unnamed.
+
+(* named registers, every register name: reg-y stores exactly the selected
+   characters in register r and in no other place ... *)
+Theorem C09_vi_register_fidelity_yank : forall s orig r,
+  Inv (sb s) -> 0 <= orig <= len (btext (sb s)) -> is_register_name r = true ->
+  selected_chars s orig <> [] ->
+  exists s', vi_visual s (orig, CHARACTERS) 4 r = (0, s') /\
+    sb s' = sb s /\ sring s' = sring s /\ ssel s' = None /\
+    reg_get (sregs s') r = Some (mkclip (selected_chars s orig) CHARACTERS) /\
+    (forall r', r' <> r -> reg_get (sregs s') r' = reg_get (sregs s) r').
+Proof. exact visual_register_yank. Qed.
+Print Assumptions C09_vi_register_fidelity_yank.
+
+(* ... reg-d stores them and removes exactly them ... *)
+Theorem C09_vi_register_fidelity_delete : forall s orig r,
+  Inv (sb s) -> 0 <= orig <= len (btext (sb s)) -> is_register_name r = true ->
+  selected_chars s orig <> [] ->
+  exists s', vi_visual s (orig, CHARACTERS) 3 r = (0, s') /\
+    btext (sb s') = firstn (Z.to_nat (sel_lo (bcur (sb s)) orig)) (btext (sb s))
+                    ++ skipn (Z.to_nat (sel_hi (bcur (sb s)) orig true (len (btext (sb s))))) (btext (sb s)) /\
+    sring s' = sring s /\
+    reg_get (sregs s') r = Some (mkclip (selected_chars s orig) CHARACTERS).
+Proof. exact visual_register_delete. Qed.
+Print Assumptions C09_vi_register_fidelity_delete.
+
+(* ... and reg-p / reg-P with a count n then inserts exactly n unchanged copies *)
+Theorem C09_vi_register_yank_then_paste : forall s orig r (before : bool) n,
+  Inv (sb s) -> 0 <= orig <= len (btext (sb s)) -> is_register_name r = true ->
+  selected_chars s orig <> [] ->
+  exists s1 s2,
+    vi_visual s (orig, CHARACTERS) 4 r = (0, s1) /\
+    vi_paste_reg s1 r (if before then VI_BEFORE else VI_AFTER) n = (0, s2) /\
+    let at_ := paste_at (if before then VI_BEFORE else VI_AFTER) (bcur (sb s)) (len (btext (sb s))) in
+    btext (sb s2) = firstn (Z.to_nat at_) (btext (sb s))
+                    ++ repeat_str (selected_chars s orig) (Z.to_nat n)
+                    ++ skipn (Z.to_nat at_) (btext (sb s)) /\
+    sregs s2 = sregs s1 /\ sring s2 = sring s.
+Proof. exact visual_register_yank_then_paste. Qed.
+Print Assumptions C09_vi_register_yank_then_paste.
+
+(* pasting LINES data n >= 1 times: the new text is the old line list with n
+   copies of the data inserted below (p, emacs yank) or above (P) the cursor
+   line; every old line is kept, in order (row bounds from C02) *)
+Theorem C09_paste_lines_n : forall d data mode n,
+  valid d -> ctype data = LINES -> 1 <= n ->
+  mode = EMACS \/ mode = VI_BEFORE \/ mode = VI_AFTER ->
+  let ls := lines d in
+  let at_ := if mode =? VI_BEFORE then cursor_position_row d else cursor_position_row d + 1 in
+  exists c',
+    doc_paste d data mode n =
+    Some (join [NL] (firstn (Z.to_nat at_) ls ++ repeat_list (ctext data) (Z.to_nat n)
+                     ++ skipn (Z.to_nat at_) ls), c').
+Proof. exact doc_paste_lines. Qed.
+Print Assumptions C09_paste_lines_n.
+
+(* dd / yy against the line list (mathematical firstn/skipn, no Python slices) *)
+Theorem C09_vi_dd_span : forall s arg,
+  Inv (sb s) -> 0 <= arg ->
+  let ls := lines (cur_doc s) in
+  let row := cursor_position_row (cur_doc s) in
+  exists s', vi_dd s arg = (0, s') /\
+    btext (sb s') = join [NL] (firstn (Z.to_nat row) ls ++ skipn (Z.to_nat (row + arg)) ls) /\
+    ring_get (sring s') = mkclip (join [NL] (firstn (Z.to_nat arg) (skipn (Z.to_nat row) ls))) LINES.
+Proof. exact vi_dd_firstn. Qed.
+Print Assumptions C09_vi_dd_span.
+
+Theorem C09_vi_yy_span : forall s arg,
+  Inv (sb s) -> 0 <= arg ->
+  exists s', vi_yy s arg = (0, s') /\ sb s' = sb s /\
+    ring_get (sring s') =
+      mkclip (join [NL] (firstn (Z.to_nat arg)
+                (skipn (Z.to_nat (cursor_position_row (cur_doc s))) (lines (cur_doc s))))) LINES.
+Proof. exact vi_yy_firstn. Qed.
+Print Assumptions C09_vi_yy_span.
+
+(* kill-word as repaired by fixes/C09-kill-word-repeat-after-noop.patch (a
+   model of the PATCHED code, not of /repo HEAD): it continues a kill only when
+   its previous call killed; then for ANY first call (killing or not, any
+   arguments) a repeated call followed by one yank restores the text from
+   before the first call - the statement that C09_repeat_after_noop_kill_refuted
+   refutes for the code as it is *)
+Theorem C09_kill_word_patched_accumulates : forall s a1 r1 p1 a2,
+  Inv (sb s) -> r1 && p1 = false ->
+  let c1 := kill_word_patched s a1 r1 p1 in
+  let c2 := kill_word_patched (snd (fst c1)) a2 true (snd c1) in
+  fst (fst c1) = 0 /\ fst (fst c2) = 0 /\
+  (sring (snd (fst c2)) = sring s \/
+   exists s3, yank (snd (fst c2)) 1 = (0, s3) /\ btext (sb s3) = btext (sb s)).
+Proof. exact kill_word_patched_two_calls_restore. Qed.
+Print Assumptions C09_kill_word_patched_accumulates.
+
+Theorem C09_kill_word_patched_exact : forall s arg rep pk,
+  Inv (sb s) ->
+  (kill_word_patched s arg rep pk = (ok s, false)) \/
+  (snd (kill_word_patched s arg rep pk) = true /\
+   killed true s (fst (kill_word_patched s arg rep pk))
+          (fun del => if rep && pk then ctext (ring_get (sring s)) ++ del else del)).
+Proof. exact kill_word_patched_exact. Qed.
+Print Assumptions C09_kill_word_patched_exact.
 
 (* the hypotheses are satisfiable: C-k on "ab\ncd" at 0 kills "ab" *)
 Example C09_example_kill_line :
